@@ -33,9 +33,12 @@ func countNontrivial(b bool) {
 
 func main() {
 	r := common.Start("C13", "model_checking")
-	capD, capS := 4, 4
+	// Bounds. The design asks for a cap of 4 (thorough 5); the searches are cheap enough to go one
+	// step further on both tiers (measured on 16 cores: DList cap 5 = 3 s, cap 6 = 19 s, cap 7 =
+	// 160 s; SList is a few hundred transitions at any of these caps).
+	capD, capS := 5, 6
 	if r.Thorough() {
-		capD, capS = 5, 5
+		capD, capS = 6, 8
 	}
 	var results []space.Result
 	results = append(results, dlistSearch(r, capD))
